@@ -226,16 +226,28 @@ def main():
             phase("submitted")
         elif wl["kind"] == "history":
             returned = []
+            # which submissions hand a job to the scheduler: count the calls of Scheduler.aio_submit (an observation
+            # from outside; the Job object reachable from a duplicate's configuration may be the registered one)
+            calls = []
+            _orig = xp.scheduler.aio_submit
+
+            def _counted(job, _orig=_orig):
+                calls.append(job)
+                return _orig(job)
+            xp.scheduler.aio_submit = _counted
+            flags = []
             for op in wl["ops"]:
                 if op[0] == "submit":
                     cfg = Latched(tag=op[1], ctl=CTL, maxwait=maxwait)
+                    ncalls = len(calls)
                     out = cfg.submit()
                     same = next((i for i, r in enumerate(returned) if r is out), len(returned))
                     returned.append(out)
                     tasks.append((op[1], cfg, out))
+                    flags.append(len(calls) > ncalls)
                     job = cfg.__xpm__.job
                     result["subs"].append(dict(
-                        tag=op[1], ret=same, scheduled=getattr(job, "_future", None) is not None,
+                        tag=op[1], ret=same, scheduled=flags[-1],
                         njobs=len(xp.scheduler.jobs), unfinished=xp.unfinishedJobs))
                     ev(f"submitted {op[1]} ret={same}")
                 elif op[0] == "finish":
@@ -247,10 +259,10 @@ def main():
                         (CTL / f"fail.{tag}").unlink()
                     (CTL / f"latch.{tag}").touch()
                     states = []
-                    for t, cfg, out in tasks:
+                    for (t, cfg, out), fl in zip(tasks, flags):
                         job = cfg.__xpm__.job
                         fut = getattr(job, "_future", None)
-                        if t == tag and fut is not None:
+                        if t == tag and fl and fut is not None:
                             try:
                                 states.append(fut.result(timeout=maxwait).name)
                             except Exception as e:  # noqa
